@@ -743,11 +743,11 @@ Definition log_le (lg lg1 : log) : Prop :=
   (forall t, rotated lg1 t = false -> rotated lg t = false).
 Lemma log_le_refl : forall lg, log_le lg lg.
 Proof. intros; split; [|split]; intros; auto; lia. Qed.
-Lemma log_le_appr : forall lg e, log_le lg (mkLog (e :: l_appr lg) (l_decl lg) (l_conf lg) (l_rot lg)).
+Lemma log_le_appr : forall lg e, log_le lg (mkLog (e :: l_appr lg) (l_decl lg) (l_conf lg) (l_rot lg) (l_req lg)).
 Proof. intros; split; [|split]; simpl; intros; auto. apply count_appr_cons_ge. Qed.
-Lemma log_le_decl : forall lg e, log_le lg (mkLog (l_appr lg) (e :: l_decl lg) (l_conf lg) (l_rot lg)).
+Lemma log_le_decl : forall lg e, log_le lg (mkLog (l_appr lg) (e :: l_decl lg) (l_conf lg) (l_rot lg) (l_req lg)).
 Proof. intros; split; [|split]; simpl; intros; auto. lia. Qed.
-Lemma log_le_conf : forall lg e, log_le lg (mkLog (l_appr lg) (l_decl lg) (e :: l_conf lg) (l_rot lg)).
+Lemma log_le_conf : forall lg e, log_le lg (mkLog (l_appr lg) (l_decl lg) (e :: l_conf lg) (l_rot lg) (l_req lg)).
 Proof. intros; split; [|split]; simpl; intros; auto; [lia|]. apply in2_cons; assumption. Qed.
 
 Lemma mark_get_cons_mono : forall f t h e l, mark_get f t h l <> None -> mark_get f t h (e :: l) <> None.
@@ -794,7 +794,7 @@ Proof. intros lg s s' M E f t h R X. rewrite E. exact (M f t h R X). Qed.
 Lemma log_marks_cons : forall lg s s' e, log_marks lg s -> marks s' = e :: marks s -> log_marks lg s'.
 Proof. intros lg s s' e M E f t h R X. rewrite E. apply mark_get_cons_mono. exact (M f t h R X). Qed.
 Lemma log_marks_appr : forall lg s s' f t h x, log_marks lg s -> marks s' = (f, t, h, x) :: marks s ->
-  log_marks (mkLog ((f, t, h) :: l_appr lg) (l_decl lg) (l_conf lg) (l_rot lg)) s'.
+  log_marks (mkLog ((f, t, h) :: l_appr lg) (l_decl lg) (l_conf lg) (l_rot lg) (l_req lg)) s'.
 Proof.
   intros lg s s' f t h x M E f' t' h' R X. simpl in X. rewrite E.
   apply orb_prop in X. destruct X as [X|X].
@@ -804,7 +804,7 @@ Proof.
   - apply mark_get_cons_mono. apply (M f' t' h' R). rewrite X. apply orb_true_r.
 Qed.
 Lemma log_marks_decl : forall lg s s' f t h x, log_marks lg s -> marks s' = (f, t, h, x) :: marks s ->
-  log_marks (mkLog (l_appr lg) ((f, t, h) :: l_decl lg) (l_conf lg) (l_rot lg)) s'.
+  log_marks (mkLog (l_appr lg) ((f, t, h) :: l_decl lg) (l_conf lg) (l_rot lg) (l_req lg)) s'.
 Proof.
   intros lg s s' f t h x M E f' t' h' R X. simpl in X. rewrite E.
   apply orb_prop in X. destruct X as [X|X].
@@ -846,7 +846,9 @@ Definition residual (c : string) : bool :=
   str_in c ["blocked:multisend"; "whitelist:multisend"; "limits:multisend"; "whitelist:custody_send"; "limits:custody_send";
             "vote_once:approve_rotated"; "vote_once:decline_rotated";
             "threshold:approve_rotated:nongenuine"; "threshold:approve_rotated:undercount";
-            "threshold:confirm_rotated:nongenuine"; "threshold:confirm_rotated:undercount"]%string.
+            "threshold:confirm_rotated:nongenuine"; "threshold:confirm_rotated:undercount";
+            "password:approve:requirement_dropped"; "password:confirm:requirement_dropped";
+            "password:approve_rotated:requirement_dropped"; "password:confirm_rotated:requirement_dropped"]%string.
 
 Lemma residual_key : forall a b, residual (cl3 "key" a b) = true.
 Proof. intros. unfold residual, cl3. simpl. reflexivity. Qed.
@@ -984,10 +986,11 @@ Lemma release_clauses_ok : forall lg s t h tx V kind,
    (forall st, a_set (getA s t) = Some st -> s_en st = true -> 0 < n_cust (getA s t) ->
       exists c, a_cust (getA s t) = Some c /\ 0 < map_len c /\ s_mode st <= Z.quot (V * 100) (map_len c)))
   \/ kind = "approve_rotated"%string \/ kind = "confirm_rotated"%string ->
+  kind = "approve"%string \/ kind = "confirm"%string \/ kind = "approve_rotated"%string \/ kind = "confirm_rotated"%string ->
   (forall st, a_set (getA s t) = Some st -> s_pwd st = true -> in2 t h (l_conf lg) = true) ->
   forall x, In x (release_clauses lg s t h tx V kind) -> residual x = true.
 Proof.
-  intros lg s t h tx V kind HT HP x Hin.
+  intros lg s t h tx V kind HT HK0 HP x Hin.
   unfold release_clauses in Hin. cbv zeta in Hin.
   apply in_app_or in Hin. destruct Hin as [Hin|Hin].
   - destruct HT as [(Hr & HV & Hcnt & HC)|HK].
@@ -999,8 +1002,11 @@ Proof.
       split; [apply n_cust_nonneg|apply n_cust_le_map_len; assumption].
     + destruct HK; subst kind; lit_res.
   - apply in_app_or in Hin. destruct Hin as [Hin|Hin].
-    + exfalso. unfold flag in Hin. destruct (a_set (getA s t)) as [st|] eqn:Hs; [|destruct Hin].
-      destruct (s_pwd st) eqn:Hw; [|destruct Hin]. rewrite (HP st eq_refl Hw) in Hin. destruct Hin.
+    + destruct (in2 t h (l_conf lg)) eqn:Ei; simpl negb in Hin; cbv iota in Hin; [destruct Hin|].
+      unfold flag in Hin. destruct (a_set (getA s t)) as [st|] eqn:Hs.
+      * destruct (s_pwd st) eqn:Hw; [pose proof (HP st eq_refl Hw) as Y; congruence|].
+        destruct HK0 as [->|[->|[->| ->]]]; lit_res.
+      * destruct HK0 as [->|[->|[->| ->]]]; lit_res.
     + eapply wl_lim_custody_residual; eauto.
 Qed.
 
@@ -1010,7 +1016,7 @@ Lemma approve_inv : forall lg lg1 s s' f t h p tx p',
   marks s' = (f, t, h, 1) :: marks s -> pool_of s' t = Some p' -> (forall u, u <> t -> pool_of s' u = pool_of s u) ->
   (forall u, a_stat (getA s' u) = a_stat (getA s u)) ->
   p' = pool_del h p \/ p' = pool_set h (tx_votes tx (t_votes tx + 1)) p ->
-  lg1 = mkLog ((f, t, h) :: l_appr lg) (l_decl lg) (l_conf lg) (l_rot lg) \/ (lg1 = lg /\ rotated lg t = true) ->
+  lg1 = mkLog ((f, t, h) :: l_appr lg) (l_decl lg) (l_conf lg) (l_rot lg) (l_req lg) \/ (lg1 = lg /\ rotated lg t = true) ->
   Inv lg1 s'.
 Proof.
   intros lg lg1 s s' f t h p tx p' I Hp Hg Mk Pt Po St Hp' Hl. pose proof I as (I1 & I2 & I3 & I4).
@@ -1065,7 +1071,7 @@ Proof.
   assert (Hq : 0 <= Z.quot r0 (map_len c) <= Z.max 0 r0) by (split; [clear - Eq; lia|apply quot_bound; [exact Hn|clear - Eq; lia]]).
   pose proof (send_reward_bound _ _ _ _ _ _ _ E1 Hq) as B1.
   set (h := to_lower hraw) in *.
-  set (lgc := mkLog ((f, t, h) :: l_appr lg) (l_decl lg) (l_conf lg) (l_rot lg)).
+  set (lgc := mkLog ((f, t, h) :: l_appr lg) (l_decl lg) (l_conf lg) (l_rot lg) (l_req lg)).
   unfold sound_step, op_clauses. cbv zeta. fold h. rewrite Hisc. simpl negb. simpl andb.
   (* the log after the step, whatever the case *)
   assert (HL : forall vt, vt = true ->
@@ -1094,7 +1100,8 @@ Proof.
     set (lg1 := if negb (in3 f t h (l_appr lg) || in3 f t h (l_decl lg)) then lgc else lg) in *.
     simpl fst. simpl snd. split.
     + intros x Hin. apply in_app_or in Hin. destruct Hin as [Hin|Hin]; [exact (HL2 x Hin)|]. simpl app in Hin.
-      apply (release_clauses_ok lg1 s t h tx (t_votes tx + 1) (if rotated lg t then "approve_rotated" else "approve")); [| |exact Hin].
+      apply (release_clauses_ok lg1 s t h tx (t_votes tx + 1) (if rotated lg t then "approve_rotated" else "approve")); [| | |exact Hin].
+      2:{ destruct (rotated lg t); auto. }
       * destruct (rotated lg t) eqn:Hr; [right; left; reflexivity|left].
         destruct HL1 as [HL1|[_ HL1]]; [|congruence]. destruct (I2 t p h tx Hr Hp Hg) as [Hv0 Hv1].
         split; [rewrite HL1; exact Hr|]. split; [clear - Hv0; lia|]. split.
@@ -1191,7 +1198,7 @@ Proof.
   simpl andb in E. destruct (String.eqb pw (t_pw tx)) eqn:Epw; simpl negb in E; cbv iota in E; [|discriminate].
   simpl option_map in E.
   set (h := to_lower hraw) in *.
-  set (lg1 := mkLog (l_appr lg) (l_decl lg) ((t, h) :: l_conf lg) (l_rot lg)).
+  set (lg1 := mkLog (l_appr lg) (l_decl lg) ((t, h) :: l_conf lg) (l_rot lg) (l_req lg)).
   set (r := tx_conf tx true) in *.
   set (kind := if rotated lg t then "confirm_rotated"%string else "confirm"%string).
   unfold sound_step, op_clauses. cbv zeta. fold h. unfold pending. rewrite Hp, Hg, Epw. simpl orb. cbv iota. fold lg1. fold kind.
@@ -1216,7 +1223,8 @@ Proof.
     assert (Pd : paid_without_release s (store_pool s1 t (pool_del h p)) t h = false) by (unfold paid_without_release; rewrite Rl; reflexivity).
     rewrite Pd, Rl. simpl fst. simpl snd. split.
     + intros x Hin. simpl in Hin.
-      apply (release_clauses_ok lg1 s t h tx (t_votes tx) kind); [| |exact Hin].
+      apply (release_clauses_ok lg1 s t h tx (t_votes tx) kind); [| | |exact Hin].
+      2:{ unfold kind. destruct (rotated lg t); auto. }
       * unfold kind. destruct (rotated lg t) eqn:Hr; [right; right; reflexivity|left].
         destruct (I2 t p h tx Hr Hp Hg) as [Hv0 Hv1].
         split; [exact Hr|]. split; [exact Hv0|]. split; [exact Hv1|].
@@ -1259,13 +1267,15 @@ Proof.
     inversion E; subst s'. clear E.
     rewrite (dec_nondec s _ sg) by (apply nondec_setA; [apply nondec_refl|reflexivity]).
     simpl fst. simpl snd. split; [intros x []|].
-    apply (Inv_pool_update lg lg s (setA s sg (with_pool (getA s sg) (Some [(h, mkTx sg to amt pw rew 0 false)]))) sg
+    assert (G : Inv lg (setA s sg (with_pool (getA s sg) (Some [(h, mkTx sg to amt pw rew 0 false)])))).
+    { apply (Inv_pool_update lg lg s (setA s sg (with_pool (getA s sg) (Some [(h, mkTx sg to amt pw rew 0 false)]))) sg
              [(h, mkTx sg to amt pw rew 0 false)] I (log_le_refl _)
              (log_marks_same lg s (setA s sg (with_pool (getA s sg) (Some [(h, mkTx sg to amt pw rew 0 false)]))) I1 eq_refl)
              (pool_of_setA_same _ _ _) (fun u Hu => pool_of_setA_other _ _ _ _ Hu)).
-    + intros h' tx' Q. simpl in Q. destruct (String.eqb h' h); inversion Q; subst tx'. simpl.
-      split; [intros _; split; [lia|apply count_appr_nonneg]|discriminate].
-    + intros u. rewrite getA_setA. destruct (u =? sg) eqn:Eu; auto. assert (u = sg) by lia; subst. reflexivity.
+      + intros h' tx' Q. simpl in Q. destruct (String.eqb h' h); inversion Q; subst tx'. simpl.
+        split; [intros _; split; [lia|apply count_appr_nonneg]|discriminate].
+      + intros u. rewrite getA_setA. destruct (u =? sg) eqn:Eu; auto. assert (u = sg) by lia; subst. reflexivity. }
+    destruct (flag s_pwd (getA s sg)); exact G.
   - (* paid out directly: only without custodians and without password *)
     assert (G : guarded (getA s sg) && (0 <? n_cust (getA s sg)) = false /\ flag s_pwd (getA s sg) = false).
     { unfold guarded, flag. destruct (a_set (getA s sg)) as [st|]; [|auto].
@@ -1282,8 +1292,8 @@ Proof.
     split.
     + destruct (dec (getA s sg) (getA s' sg)); simpl fst; [|intros x []].
       rewrite G1, G2. simpl app. intros x Hin. eapply wl_lim_custody_residual; exact Hin.
-    + destruct (dec (getA s sg) (getA s' sg)); simpl snd;
-        exact (Inv_same_pools lg lg s s' I (log_le_refl _) (log_marks_same lg s s' I1 (send_marks _ _ _ _ _ E)) Po St).
+    + assert (G : Inv lg s') by exact (Inv_same_pools lg lg s s' I (log_le_refl _) (log_marks_same lg s s' I1 (send_marks _ _ _ _ _ E)) Po St).
+      destruct (dec (getA s sg) (getA s' sg)); simpl snd; [exact G|]. rewrite G2. exact G.
 Qed.
 
 Lemma sound_multi : forall n lg s sg to amt s',
@@ -1321,11 +1331,11 @@ Lemma sound_quiet : forall n lg s o s', Inv lg s -> handle v s o = Ok s' -> sett
 Proof.
   intros n lg s o s' I E Hq. pose proof I as (I1 & I2 & I3 & I4).
   destruct (handle_quiet _ _ _ E Hq) as [F M].
-  assert (X : op_clauses n lg s s s' o = ([], lg)) by (destruct o; try contradiction; reflexivity).
-  unfold sound_step. rewrite X. simpl. split; [intros x []|].
-  apply (Inv_same_pools lg lg s s' I (log_le_refl _) (log_marks_same lg s s' I1 M)).
-  - intros u. specialize (F u). unfold pbs in F. injection F as F1 F2 F3. unfold pool_of. exact F1.
-  - intros u. specialize (F u). unfold pbs in F. injection F as F1 F2 F3. exact F3.
+  assert (G : Inv lg s').
+  { apply (Inv_same_pools lg lg s s' I (log_le_refl _) (log_marks_same lg s s' I1 M)).
+    - intros u. specialize (F u). unfold pbs in F. injection F as F1 F2 F3. unfold pool_of. exact F1.
+    - intros u. specialize (F u). unfold pbs in F. injection F as F1 F2 F3. exact F3. }
+  unfold sound_step. destruct o; try contradiction; simpl; (split; [intros x []|exact G]).
 Qed.
 
 Lemma sound_bank : forall n lg s sg to amt now s',
@@ -1467,7 +1477,7 @@ Proof.
 Qed.
 
 Lemma rotated_cons2 : forall lg a nw t x y z,
-  rotated (mkLog x y z (a :: nw :: l_rot lg)) t = false -> t <> a /\ t <> nw /\ rotated lg t = false.
+  rotated (mkLog x y z (a :: nw :: l_rot lg) (ren2 a nw (l_req lg))) t = false -> t <> a /\ t <> nw /\ rotated lg t = false.
 Proof.
   intros lg a nw t x y z R. unfold rotated in *. simpl in R.
   apply orb_false_elim in R. destruct R as [R1 R]. apply orb_false_elim in R. destruct R as [R2 R]. repeat split; [lia|lia|exact R].
@@ -1511,7 +1521,7 @@ Proof.
     unfold B', A' in C7. cbn [a_bal] in C7.
     unfold mvo in C1, C2, C3, C4, C5, C6, Hin. cbv beta in C1, C2, C3, C4, C5, C6, Hin. rewrite C1, C2, C3, C4, C5, C6 in Hin. rewrite !bal_merge_get, !Z.eqb_refl in Hin. simpl in Hin. destruct Hin.
   - (* the invariant: the two accounts of the rotation are outside the vote guarantees from now on *)
-    set (lg' := mkLog (ren3 a nw (l_appr lg)) (ren3 a nw (l_decl lg)) (ren2 a nw (l_conf lg)) (a :: nw :: l_rot lg)).
+    set (lg' := mkLog (ren3 a nw (l_appr lg)) (ren3 a nw (l_decl lg)) (ren2 a nw (l_conf lg)) (a :: nw :: l_rot lg) (ren2 a nw (l_req lg))).
     assert (Mo : forall f t h, t <> a -> t <> nw -> mark_get f t h (marks s') = mark_get f t h (marks s)).
     { intros f t h H1 H2. unfold s'. simpl marks. destruct (v_rot v); [apply mark_get_ren_other; assumption|reflexivity]. }
     split; [|split; [|split]].
